@@ -217,11 +217,14 @@ impl DecoderRleMode<'_> {
             .read_symbol(bitstream, cluster)
             .and_then(|token| {
                 Ok(if let Some(token) = token.checked_sub(self.min_symbol) {
-                    RleToken::Repeat(
-                        self.inner
-                            .read_uint_prefilled(bitstream, &self.len_config, token)?
-                            + self.min_length,
-                    )
+                    let len = self
+                        .inner
+                        .read_uint_prefilled(bitstream, &self.len_config, token)?;
+                    let Some(len) = len.checked_add(self.min_length) else {
+                        tracing::error!(len, self.min_length, "RLE repeat length overflow");
+                        return Err(Error::InvalidLz77Symbol);
+                    };
+                    RleToken::Repeat(len)
                 } else {
                     RleToken::Value(self.inner.read_uint_prefilled(
                         bitstream,
